@@ -35,20 +35,39 @@ def parseMsg (s : String) : Option Msg :=
     | _, _, _, _ => none
   | _ => none
 
-/-- `watch:<uri>:<0|1 deleted>:<A | U | R<hex text>>`, `load:<uri>:<hex text>`, or one of the messages -/
-def parseEv (s : String) : Option Ev :=
+/-- the spelling of a document key: `f1` = spelling 0, `f1~2` = spelling 2 of the same file's URI -/
+def splitSp (u : String) : String × Nat :=
+  match u.splitOn "~" with
+  | [k, n] => (k, n.toNat?.getD 0)
+  | _ => (u, 0)
+
+/-- replace the document key of an event (second field) by its bare key, returning the spelling -/
+def stripSp (s : String) : String × Nat :=
+  match s.splitOn ":" with
+  | tag :: u :: rest =>
+    if tag == "req" then
+      match rest with
+      | u' :: rest' => let (k, n) := splitSp u'; (":".intercalate (tag :: u :: k :: rest'), n)
+      | [] => (s, 0)
+    else let (k, n) := splitSp u; (":".intercalate (tag :: k :: rest), n)
+  | _ => (s, 0)
+
+/-- `watch:<uri>:<0|1 deleted>:<A | U | R<hex text>>`, `load:<uri>:<hex text>`, or one of the messages; a document key may carry a
+spelling (`f1~1`) -/
+def parseEv (s0 : String) : Option Ev :=
+  let (s, sp) := stripSp s0
   match s.splitOn ":" with
   | ["watch", u, del, disk] =>
     let d : Option Disk := if disk == "A" then some .absent else if disk == "U" then some .unreadable
       else if disk.startsWith "R" then (unhex (disk.drop 1).toString).map Disk.regular else none
     match parseUri u, d with
-    | some u, some d => some (.watched u (del == "1") d)
+    | some u, some d => some (.watched sp u (del == "1") d)
     | _, _ => none
   | ["load", u, h] =>
     match parseUri u, unhex h with
     | some (.file u), some t => some (.loaded u t)
     | _, _ => none
-  | _ => (parseMsg s).map Ev.msg
+  | _ => (parseMsg s).map (Ev.msg sp)
 
 def showOut : Out → String
   | .none => "-"
